@@ -2,6 +2,7 @@ import Yaql.Drv.Util
 import Yaql.Drv.ValueJson
 import Yaql.Model.PyPrelude
 import Yaql.Model.Strings
+import Yaql.Model.Scalar
 /-! JSON codecs of the translator's type universe (protocol of harness/srcobl.py):
 int -> decimal string | bool | str -> [code points] | T? -> null / {"some": x} | [T] -> array |
 (A, B, ..) -> array | {K: V} -> array of [k, v] | Except -> {"ok": x} / {"err": "<class>"} -/
@@ -51,6 +52,11 @@ def encAtom : Yaql.Strings.Atom → Json
   | .bool b => .bool b
   | .int i => jo [("i", encInt i)]
   | .str s => jo [("s", encStr s)]
+
+def decSVal (j : Json) : Yaql.Scalar.SVal := (Yaql.Scalar.ofValue? (valOfJson j)).getD .null
+def encSVal (v : Yaql.Scalar.SVal) : Json := valToJson v.toValue
+def decNum (j : Json) : Yaql.Scalar.Num := (Yaql.Scalar.asNum (decSVal j)).getD (.int 0)
+def encNum (n : Yaql.Scalar.Num) : Json := encSVal n.toSVal
 
 /-! closed families of total callables the differential instantiates callable parameters with
 (harness/srcgen_targets.py `FN_FAMILIES` holds the python twins, same order) -/
